@@ -171,9 +171,48 @@ void *memset(void *dst, int c, size_t n)
 }
 #endif
 
+/* ---- dup / del: index-dispatched (see header comment) ------------------------
+ * vg_dup_cnt / vg_del_cnt count the REAL operations performed on the ghost slot's element, so
+ * "duplicated / deleted exactly once" can be carried through a loop invariant. */
+int vg_dup_cnt, vg_del_cnt;
+/* The object that the dup of the ghost element returns.  It is handed in by the unit's
+ * precondition as a fresh velem-sized block (is_fresh): "dup returns fresh memory" is modelled
+ * by a block that is separate from everything else from the start instead of by a malloc inside
+ * the loop (a pointer assigned inside a loop is havocked by the loop contract and cbmc cannot
+ * carry its validity through the invariant).  Same observable behaviour as velem_dup. */
+velem_t vg_dup_obj;
+static spif_obj_t va_dup(spif_obj_t o)
+{
+    if (vg_cur == vg_k) {
+        __CPROVER_assert(o != NULL, "SPIF_OBJ_DUP: receiver is not NULL (dispatch dereferences it)");
+        __CPROVER_assume(o != NULL);
+        vg_dup_obj->parent = ((velem_t) o)->parent;
+        vg_dup_obj->key = ((velem_t) o)->key;
+        vg_dup_cnt++;
+        return (spif_obj_t) vg_dup_obj;
+    }
+    /* any other slot: some element pointer (never dereferenced in this run) */
+    spif_obj_t r = nondet_ptr();
+    return r;
+}
+static spif_bool_t va_del(spif_obj_t o)
+{
+    if (vg_cur == vg_k) {
+        __CPROVER_assert(o != NULL, "SPIF_OBJ_DEL: receiver is not NULL (dispatch dereferences it)");
+        __CPROVER_assume(o != NULL);
+        vg_del_cnt++;
+        return velem_del((velem_t) o);
+    }
+    return TRUE;
+}
+
 #ifndef VA_NO_REBIND
 # undef SPIF_OBJ_COMP
+# undef SPIF_OBJ_DUP
+# undef SPIF_OBJ_DEL
 # define SPIF_OBJ_COMP(o1, o2) va_comp((spif_obj_t) (o1), (spif_obj_t) (o2))
+# define SPIF_OBJ_DUP(o)       va_dup((spif_obj_t) (o))
+# define SPIF_OBJ_DEL(o)       va_del((spif_obj_t) (o))
 #endif
 
 #endif
